@@ -3,7 +3,10 @@
 Correspondence: the real entry points (fingerprint.generate.fprints_dict_from_mol / fprints_dict_from_sdf,
 pipeline.fprints_from_mol / fprints_from_sdf / fprints_from_smiles, MolItemName) against Model/Pipeline.v evaluated in
 Coq, where the per-conformer function of the model is a table recorded from *direct* use of Fingerprinter (a fresh
-object per conformer: run + get_fingerprint_at_level)."""
+object per conformer: run + get_fingerprint_at_level).
+
+Streams A-E are the original ones (one `do_entry(ci, {})` per random entry-point case); stream F (props/c14_cov.py) feeds
+`do_entry` with overrides (more molecules, names, call forms, sequences on shared objects) and adds direct streams."""
 import json
 import os
 
@@ -11,8 +14,9 @@ import core
 import fpgen
 import pipe_gen as PG
 from core import zlit, optlit, strlit, listlit, blit
+from props import c14_cov as COV
 
-IMPORTS = ['From Coq Require Import QArith.', 'From E3FP Require Import Base.Prelude Model.Fprint Model.Pipeline.']
+IMPORTS = ['From Coq Require Import QArith.', 'From E3FP Require Import Base.Prelude Model.Fprint Model.Pipeline Gen.PipelineFacts.']
 PLAIN_NAMES = ['mol', 'ZINC00001084', 'a-b', 'x_y', 'CHEMBL25', 'a-1_', '_1', '-7', '1', 'lig A', 'm.1', 'n-1x', 'q_', 'aéb']
 SUFFIX_NAMES = ['mol_1', 'mol-2_3', 'x-3', 'a_1_2', 'mol-007', 'c_0', 'CHEMBL25-1']
 SMILES = ['CCO', 'CC(C)CO', 'c1ccccc1O', 'CCN', 'OCC(O)CO', 'CC(=O)OC']
@@ -58,7 +62,7 @@ def run(ctx, only=None):
     state = {'found': False}
     dist = {'conformer_ids_contiguous': 0, 'conformer_ids_gapped': 0, 'conformer_ids_shifted': 0, 'conformer_ids_reversed': 0, 'conformer_ids_all_zero': 0, 'naming_strings': 0, 'entry': {}, 'first_class': {}, 'level': {}, 'all_iters': 0, 'save': 0, 'unnamed': 0,
             'suffix_names_outside_property': 0, 'first_outside_property': 0, 'smiles_histories': 0, 'smiles_calls': 0,
-            'out_ext': {}, 'errors': 0, 'n_confs': {}}
+            'out_ext': {}, 'errors': 0, 'n_confs': {}, 'options': {}, 'bits': {}, 'extension_streams': {}, 'special_option_cases': {}, 'call_forms': {}}
 
     def pfail(key, what, payload, finding_key=None):
         """A property-level failure observed on the implementation for case `key`."""
@@ -111,12 +115,23 @@ def run(ctx, only=None):
     multi = [(t, m) for t, m in mols if m.GetNumConformers() >= 6]
     single = [(t, m) for t, m in mols if m.GetNumConformers() < 6]
     n_entry = ctx.n(80, 800)
-    for ci in range(n_entry):
+
+    def do_entry(ci, S):
+        """One entry-point case.  S: overrides of the random choices (empty for the original stream; see c14_cov.entry_plans)."""
         tag, base = rng.choice(multi) if rng.random() < 0.85 else rng.choice(single)
         n = min(base.GetNumConformers(), rng.choice([1, 2, 3, 3, 4, 5, 6]))
+        if 'base' in S:
+            tag, base = S['base']
+        if 'sdf_file' in S:
+            tag, base = os.path.basename(S['sdf_file']).split('.')[0], None
+        if 'mol_obj' in S:
+            tag, base = S['mol_obj'][0], None
+            n = S['mol_obj'][1].GetNumConformers()
+        if base is not None:
+            n = min(base.GetNumConformers(), S.get('n', n))
         r_name = rng.random()
         if r_name < 0.45:
-            name = PG.mol_name(base)
+            name = PG.mol_name(base) if base is not None else 'mol'
         elif r_name < 0.75:
             name = rng.choice(PLAIN_NAMES)
         elif r_name < 0.84:
@@ -125,21 +140,37 @@ def run(ctx, only=None):
             name = ''
         else:
             name = rng.choice(SUFFIX_NAMES)
+        if S and 'name' not in S and name is not None and not is_plain(name):
+            name = PG.mol_name(base) if base is not None else 'mol'          # extension cases stay inside the property's name domain
+        if 'name' in S:
+            name = S['name']
         first_choices = [-1, 1, 2, n - 1, n, n + 3]
         first = rng.choice(first_choices) if rng.random() < 0.93 else rng.choice([0, -2, -5])
         first_param = first if rng.random() < 0.9 else None          # None: option absent (default 3)
+        if S and first in (0, -2, -5):
+            first = 2
+            first_param = None if first_param is None else 2
+        if 'first' in S:
+            first_param = S['first']
+            first = 3 if first_param is None else first_param
         level_p = rng.choice([('val', -1), ('none',), ('absent',), ('val', 0), ('val', 1), ('val', 2), ('val', 3), ('val', 5)])
         bits_p = rng.choice([('absent',), ('none',), ('val', -1), ('val', 1024), ('val', 4096), ('val', 32), ('val', 1024)])
         all_iters = rng.choice([None, False, True, True])
         save = rng.random() < 0.4
         entry = rng.choice(['dict_mol', 'dict_mol', 'from_mol', 'from_mol', 'from_sdf', 'dict_sdf'])
+        level_p, bits_p, all_iters = S.get('level_p', level_p), S.get('bits_p', bits_p), S.get('all_iters', all_iters)
+        save, entry = S.get('save', save), S.get('entry', entry)
+        if S.get('call_form') and entry.startswith('dict'):
+            entry = 'from_mol'
+        if ('mol_class' in S or 'id_mode' in S and S['id_mode'] != 'contiguous' or 'mol_obj' in S) and entry.endswith('sdf'):
+            entry = 'from_mol'
         sdf_ok = name is not None and all(c not in name for c in '\n')
         if entry in ('from_sdf', 'dict_sdf') and not sdf_ok:
             entry = 'from_mol'
         # a few directed combinations that random choice reaches only rarely
         directed = {0: ('from_mol', ('absent',), True, False), 1: ('from_mol', ('none',), True, False), 2: ('from_mol', ('val', 3), True, False),
                     3: ('from_mol', ('absent',), None, False), 4: ('dict_mol', ('val', 2), True, True), 5: ('from_mol', ('val', -1), True, True)}
-        if ci in directed:
+        if ci in directed and not S:
             entry, level_p, all_iters, save = directed[ci]
             if name is None or not is_plain(name):
                 name = PG.mol_name(base)
@@ -147,18 +178,23 @@ def run(ctx, only=None):
                 first = 2
                 first_param = 2
         fp_opts = rand_fp_opts(rng)
-        cdir = os.path.join(ctx.workdir, 'e%d' % ci)
-        os.makedirs(cdir)
+        fp_opts = dict(S.get('fp_opts', fp_opts))
+        if S.get('call_form') == 'omit':
+            fp_opts = {}
+        cdir = S.get('cdir') or os.path.join(ctx.workdir, 'e%d' % ci)
+        os.makedirs(cdir, exist_ok=True)
         out_ext = rng.choice([None, '.fp.pkl', '.fp.gz', '.fp.bz2'])
         overwrite = rng.choice([None, False, True])
+        out_ext, overwrite = S.get('out_ext', out_ext), S.get('overwrite', overwrite)
+        base_name = S.get('out_base_name', 'fp')
         if ci == 4:
             overwrite = None            # directed: a half-written all_iters molecule re-run without overwrite
         P = {'bits': bits_p, 'level': level_p, 'first': first_param, 'out_dir_base': None, 'out_ext': out_ext if save else None,
              'all_iters': all_iters, 'overwrite': overwrite if save else None}
         if save and not (rng.random() < 0.04 and all_iters and level_p[0] == 'val' and level_p[1] >= 0):
-            P['out_dir_base'] = os.path.join(cdir, 'fp')      # a few all_iters cases keep None: TypeError before any write
-        if save and P['out_dir_base'] is None and not (all_iters and level_p[0] == 'val' and level_p[1] >= 0):
-            P['out_dir_base'] = os.path.join(cdir, 'fp')
+            P['out_dir_base'] = os.path.join(cdir, base_name)      # a few all_iters cases keep None: TypeError before any write
+        if save and P['out_dir_base'] is None and (S or not (all_iters and level_p[0] == 'val' and level_p[1] >= 0)):
+            P['out_dir_base'] = os.path.join(cdir, base_name)
         if save and name is not None and '/' in name:
             save = False
         # conformer ids as RDKit hands them out are not positions: gaps (after RemoveConformer), any order, repeats (AddConformer
@@ -166,12 +202,29 @@ def run(ctx, only=None):
         id_mode = 'contiguous'
         if entry in ('dict_mol', 'from_mol') and n >= 2 and rng.random() < 0.35:
             id_mode = rng.choice(['gapped', 'shifted', 'reversed', 'all_zero'])
+        id_mode = S.get('id_mode', id_mode)
+        if n < 2 or base is None:
+            id_mode = 'contiguous'
         ids = {'contiguous': None, 'gapped': sorted(rng.sample(range(0, 3 * n + 2), n)), 'shifted': list(range(1, n + 1)),
                'reversed': list(range(n - 1, -1, -1)), 'all_zero': [0] * n}[id_mode]
         dist['conformer_ids_' + id_mode] += 1
-        mol = PG.make_mol(base, n, name, ids=ids)
         sdf_path = None
-        if entry in ('from_sdf', 'dict_sdf'):
+        if 'mol_obj' in S:
+            mol = S['mol_obj'][1]                       # a molecule object shared by consecutive calls (c14_cov.sequence_plans)
+            name = PG.mol_name(mol)
+        elif 'sdf_file' in S:
+            sdf_path = S['sdf_file']                    # a shipped file as it is (bz2, energies, up to 300 records)
+            mol = mol_from_sdf(sdf_path)
+            name = PG.mol_name(mol)
+        else:
+            mol = PG.make_mol(base, n, name, ids=ids)
+        if S.get('mol_class') == 'PropertyMol':
+            from rdkit.Chem.PropertyMol import PropertyMol
+            mol = PropertyMol(mol)
+        elif S.get('mol_class') == 'RWMol':
+            from rdkit import Chem as _Chem
+            mol = _Chem.RWMol(mol)
+        if entry in ('from_sdf', 'dict_sdf') and sdf_path is None:
             sdf_path = os.path.join(cdir, 'in.sdf' + rng.choice(['', '.gz', '.bz2']))
             mol_to_sdf(mol, sdf_path)
             mol = mol_from_sdf(sdf_path)              # the harness's own read: from_sdf = from_mol o read
@@ -184,7 +237,9 @@ def run(ctx, only=None):
         ai = bool(all_iters)
         levels = [lv] if (lv == -1 or not ai) else list(range(lv + 1))
         separate = ai and rng.random() < 0.5
-        table = PG.direct_table(mol, bits, lv, levels, fp_opts, separate=separate)
+        eff_first0 = 3 if first_param is None else first_param
+        table = PG.direct_table(mol, bits, lv, levels, fp_opts, separate=separate,
+                                limit=(eff_first0 + 1) if ('sdf_file' in S and eff_first0 >= 1) else None)
         init = PG.direct_init(bits, lv, fp_opts)
         # pre-existing files
         fs0 = []
@@ -197,22 +252,54 @@ def run(ctx, only=None):
             pre = target if mode == 'all' else [p for p in target if rng.random() < 0.5] if mode == 'some' else []
             if ci == 4:
                 pre = target[1:2]
+            if S.get('no_pre'):
+                pre = []
             for k, p in enumerate(pre):
                 os.makedirs(p[0], exist_ok=True)
                 open(os.path.join(*p), 'wb').write(PG.SENTINEL % k)
                 fs0.append((p, ('sentinel', k)))
         else:
             cand = []
+        if 'cdir' in S:
+            # a directory shared by consecutive calls: whatever the earlier calls left there is the initial file state
+            fs0 = []
+            for root, _, files in os.walk(cdir):
+                for f in sorted(files):
+                    if not f.startswith('in.sdf'):
+                        fs0.append(((root, f), PG.read_content(os.path.join(root, f))))
         kw = PG.kwargs_of(P, fp_opts)
+        if S.get('np_ints'):
+            kw = COV.np_ints(kw)
+        kw_before = dict(kw)
+        form = S.get('call_form', 'kw')
+        if form == 'omit' and kw:
+            form = 'kw'
         if entry == 'dict_mol':
             call = lambda: G.fprints_dict_from_mol(mol, save=save, **kw)
         elif entry == 'dict_sdf':
             call = lambda: G.fprints_dict_from_sdf(sdf_path, save=save, **kw)
         elif entry == 'from_mol':
-            call = lambda: pipeline.fprints_from_mol(mol, fprint_params=kw, save=save)
+            call = {'kw': lambda: pipeline.fprints_from_mol(mol, fprint_params=kw, save=save),
+                    'pos': lambda: pipeline.fprints_from_mol(mol, kw, save),
+                    'omit': lambda: pipeline.fprints_from_mol(mol)}[form]
         else:
-            call = lambda: pipeline.fprints_from_sdf(sdf_path, fprint_params=kw, save=save)
+            call = {'kw': lambda: pipeline.fprints_from_sdf(sdf_path, fprint_params=kw, save=save),
+                    'pos': lambda: pipeline.fprints_from_sdf(sdf_path, kw, save),
+                    'omit': lambda: pipeline.fprints_from_sdf(sdf_path)}[form]
+        snap_before = COV.snapshot_mol(mol)
         r, msgs = PG.logged_call(call)
+        # the call must leave its arguments and the functions' mutable defaults alone (a later call would inherit the change)
+        side = []
+        if COV.snapshot_mol(mol) != snap_before:
+            side.append('the molecule (name / conformer ids / coordinates) was changed')
+        if list(kw.items()) != list(kw_before.items()):
+            side.append('the fprint_params dict was changed: %r -> %r' % ({k: str(v) for k, v in kw_before.items()}, {k: str(v) for k, v in kw.items()}))
+        if COV.defaults_state():
+            side.append('a default-argument dict of e3fp.pipeline now holds %r' % (COV.defaults_state(),))
+            COV.clear_defaults()
+        if side:
+            pfail('entry/%s/%d' % (entry, ci), 'entry point %s has a side effect on its inputs: %s' % (entry, '; '.join(side)),
+                  {'entry': entry, 'molecule': tag, 'name': name, 'params': {k: str(v) for k, v in kw_before.items()}, 'save': save, 'call_form': form})
         kind = 'dict' if entry.startswith('dict') else 'list'
         if r[0] == 'ok':
             if kind == 'dict' and not isinstance(r[1], dict):
@@ -235,6 +322,14 @@ def run(ctx, only=None):
         if unread:
             pfail('entry/%s/%d' % (entry, ci), 'a saved fingerprint file cannot be reloaded with loadz', {'files': unread, 'params': str(kw)})
             fs_after = [(p, c) for p, c in fs_after if c is None or c[0] != 'unreadable']
+        if S or ci % 4 == 0:
+            for p, c in fs_after:
+                if c is not None and c[0] == 'pickled':
+                    probs = COV.reload_variants(os.path.join(*p))
+                    dist['reload_variants_checked'] = dist.get('reload_variants_checked', 0) + 1
+                    if probs:
+                        pfail('entry/%s/%d' % (entry, ci), 'a saved fingerprint file reloads differently through load / loadz(update_structure=False): %s' % '; '.join(probs[:2]),
+                              {'file': list(p), 'params': {k: str(v) for k, v in kw.items()}, 'problems': probs})
         conf_ids = list(range(mol.GetNumConformers()))
         tl = PG.table_lit(table)
         ml = PG.mol_lit(name, conf_ids)
@@ -261,7 +356,9 @@ def run(ctx, only=None):
         ctx.count(('entry', entry, tag, len(conf_ids), name, str(sorted(kw.items())), save, tuple(p for p, _ in fs0)),
                   nontrivial=len(conf_ids) >= 2 and in_prop)
         # -- the property itself, stated on the implementation (independent of the model) for in-domain cases
-        if in_prop and lv >= -1 and r[0] == 'ok' and not (save and fs0 and not overwrite):
+        direct_ok = all(v[0] == 'ok' for v in table.values())      # e.g. an ion pair with every heavy atom floating is rejected by Fingerprinter.run:
+        #                                                            the entry points then return {} (modelled; error branch D2), nothing to compare directly
+        if in_prop and lv >= -1 and r[0] == 'ok' and direct_ok and not (save and fs0 and not overwrite):
             N = len(conf_ids) if eff_first == -1 else min(eff_first, len(conf_ids))
             lists = r[1] if kind == 'dict' else [(lv, r[1])]
             want_levels = levels if kind == 'dict' else [lv]
@@ -301,6 +398,26 @@ def run(ctx, only=None):
             dist['first_outside_property'] += 1
         if save:
             dist['out_ext'][str(out_ext)] = dist['out_ext'].get(str(out_ext), 0) + 1
+        for k_, v_ in fp_opts.items():
+            ok_ = '%s=%s' % (k_, v_)
+            dist['options'][ok_] = dist['options'].get(ok_, 0) + 1
+        dist['bits'][str(bits_raw) if bits_p[0] != 'absent' else 'absent'] = dist['bits'].get(str(bits_raw) if bits_p[0] != 'absent' else 'absent', 0) + 1
+        if S:
+            st = S.get('stream', '?')
+            dist['extension_streams'][st] = dist['extension_streams'].get(st, 0) + 1
+            if st == 'special':
+                sens = S['opt_under_test'] in ('defaults', 'all-explicit-defaults') or COV.option_sensitive(S['base'][0], S['base'][1], S['opt_under_test'])
+                ko = '%s:%s' % (S['opt_under_test'], 'result-depends-on-it' if sens else 'insensitive-molecule')
+                dist['special_option_cases'][ko] = dist['special_option_cases'].get(ko, 0) + 1
+            if form != 'kw':
+                dist['call_forms'][form] = dist['call_forms'].get(form, 0) + 1
+            if S.get('np_ints'):
+                dist['call_forms']['numpy_ints'] = dist['call_forms'].get('numpy_ints', 0) + 1
+            if S.get('mol_class'):
+                dist['call_forms'][S['mol_class']] = dist['call_forms'].get(S['mol_class'], 0) + 1
+
+    for ci in range(n_entry):
+        do_entry(ci, {})
 
     # ---------------------------------------------------------------- D. a molecule whose _Name is the empty string
     #   (what an SDF record with an empty title line gives): the property counts it as unnamed (repaired: 712315f).
@@ -454,12 +571,39 @@ def run(ctx, only=None):
                   {'history': hist_payload, 'default_dict_after': dflt_after})
             dflt_obj.clear()
 
+    # ---------------------------------------------------------------- F. coverage extension (props/c14_cov.py; table in work/coverage_C14.md)
+    env = COV.Env(ctx, add_case, pfail, dist, is_plain)
+    ci = n_entry
+    for S in COV.entry_plans(env, multi, single):
+        do_entry(ci, S)
+        ci += 1
+    #   call sequences on one molecule object / one output directory
+    dist['sequences'] = {}
+    for qi, seq in enumerate(COV.sequence_plans(env, multi)):
+        qdir = os.path.join(ctx.workdir, 'q%d' % qi)
+        for step in seq['steps']:
+            S = dict(step)
+            which = S.pop('use', 'A')
+            if S.get('before'):
+                COV.apply_before(seq['A'][1], S['before'], seq['name'])
+            S['mol_obj'] = seq[which]
+            if S.pop('shared_dir', False):
+                S['cdir'] = qdir
+            do_entry(ci, S)
+            ci += 1
+        dist['sequences'][seq['kind']] = dist['sequences'].get(seq['kind'], 0) + 1
+    COV.select_stream(env)
+    COV.molitem_stream(env)
+    COV.dict_sdf_errors(env)
+    COV.smiles_extra(env, cp_lit)
+
     for k in cases[:2] + [c for c in cases if c[0].startswith('entry/')][:3] + [c for c in cases if c[0].startswith('smiles/')][:1]:
         ctx.sample({'case': k[0], 'input_and_implementation_result': payloads[k[0]], 'model_check': k[1][:300]}, maxn=7)
     if only is not None:
         cases = [c for c in cases if c[0] == only]
-    name_cases = [c for c in cases if c[0].startswith('name/')]
-    other_cases = [c for c in cases if not c[0].startswith('name/')]
+    light = ('name/', 'molitem/', 'select/')
+    name_cases = [c for c in cases if c[0].startswith(light)]
+    other_cases = [c for c in cases if not c[0].startswith(light)]
     nbad = 0
     if name_cases or only is None:          # a replay evaluates the recorded case only
         nbad += core.compare_cases(ctx, name_cases, IMPORTS, 'C14 MolItemName', payloads, model_expr=mexpr, shard=250)
@@ -469,7 +613,15 @@ def run(ctx, only=None):
     ctx.coverage['rule'] = ('shipped SDF molecules cut to 1-6 conformers x first in {-1,1,2,n-1,n,n+3} (a few 0/<-1 and the absent default 3) x level '
                             '{-1,None,absent,0,1,2,3,5} x all_iters x bits {absent,None,-1,32,1024,4096} x seven pass-through options x four entry points '
                             'x save (three extensions, pre-existing sentinel files, overwrite); plus MolItemName on random strings over {letters,digits,-,_,newline,non-ASCII} '
-                            'and histories of fprints_from_smiles calls with/without explicit confgen_params.  Non-trivial: an in-domain case with >= 2 '
+                            'and histories of fprints_from_smiles calls with/without explicit confgen_params.  Coverage extension (props/c14_cov.py, table in '
+                            'work/coverage_C14.md): 11 embedded molecules with floating atoms / isotopes / charges / stereo where every pass-through option is run at '
+                            'its non-default value whenever that changes the direct result; punctuated names; numpy integers; positional and omitted fprint_params; '
+                            'PropertyMol / RWMol; levels 4-12, more bits, extensions and directory names; empty SDF titles; shipped files as they are; call '
+                            'sequences on one molecule object and one output directory (A,B,A; resume after a real save; conformer removed; renamed; same name on '
+                            'another molecule); fprints_from_fprints_dict called directly on multi-level dicts; the other MolItemName methods; '
+                            'fprints_from_smiles positional / save=True / tied to confs_from_smiles; after every entry call the molecule, the caller\'s dict and '
+                            'the mutable defaults of e3fp.pipeline are compared with their state before; saved files are also read through load and '
+                            'loadz(update_structure=False).  Non-trivial: an in-domain case with >= 2 '
                             'conformers (names: a string containing - or _); distinct by full input.')
     ctx.coverage['input_distribution'] = dist
     ctx.assumptions += [
